@@ -202,9 +202,10 @@ func newWorld07() *world07 {
 type res07 struct {
 	Writer   *sim.SimWriter // the io.Writer handed to this call; must not be written to after the call returned
 	Canon    string
-	Aborted  bool  // an injected fault fired in this call: its own result is not judged
-	Retained []any // values returned to the caller, to be re-inspected later
-	Volatile bool  // result documented as reusable (Reuse option): not re-inspected
+	Aborted  bool   // an injected fault fired in this call: its own result is not judged
+	Retained []any  // values returned to the caller, to be re-inspected later
+	Buffer   []byte // a result documented as the subject's own buffer: valid until the next call on that subject
+	Volatile bool   // result documented as reusable (Reuse option): not re-inspected
 }
 
 var parseInputs = [][]byte{
@@ -212,6 +213,7 @@ var parseInputs = [][]byte{
 	[]byte(`1.25e3`), []byte(`{"a":{"b":{"c":[{},{"d":[]}]}}}`), []byte(`[`), []byte(`{"a":`), []byte(`{"a":1,`), []byte(`[1,2`), []byte(`"abc`),
 	[]byte(`"ab\`), []byte(`"\u12`), []byte(`tru`), []byte(`nul`), []byte(`-`), []byte(`1.`), []byte(`1e`), []byte(`[1 2]`), []byte(`{"a" 1}`), []byte(`]`),
 	[]byte(`{"k":"v"} [1] 2 "s"`), []byte(`1 2 3`), []byte(`{"x":1}{"y":2}`), []byte(``), []byte(`  `), []byte(`null`), []byte(`{"a":1}x`),
+	[]byte(`[1,2] [3] x`), []byte(`[[1],[2]] {"a":[3,4]} ]`), []byte(`[1,2] {"a":[3]} [`), []byte(`["a","b"] ["c"] {"tags":["d","e"]} tru`), []byte(`[7,8,9]`), []byte(`{"l":[1,[2,[3]]]}`),
 	[]byte(`{"dup":1,"dup":2}`), []byte(`[0.1,0.123456789012345678,9223372036854775807,-9223372036854775808,1e400]`),
 }
 
@@ -219,6 +221,7 @@ var senInputs = [][]byte{
 	[]byte(`{a:1 b:[true null x] c:{d:1.5}}`), []byte(`[a b c]`), []byte(`'single "q"'`), []byte(`["a" + "b"]`), []byte(`["a" +`), []byte(`{a:"x" +`), []byte(`{a`), []byte(`{a:`),
 	[]byte(`[1 2 // c
  3]`), []byte(`{a:1}{b:2}`), []byte(`abc`), []byte(`[x`), []byte(`{k:v,`), []byte(`[/* c */ 1]`), []byte(`[ISODate("2021-06-28T10:11:12Z")]`), []byte(`[fn(1 2`), []byte(`{a:1 "b":2}`),
+	[]byte(`[1 2] [3] }`), []byte(`[a b] {c:[d e]} {`), []byte(`[[x] [y]] [z] ]`), []byte(`[7 8 9]`), []byte(`{l:[1 [2 [3]]]}`),
 }
 
 func drawParseInput(t *rapid.T, senFamily bool) []byte {
@@ -384,10 +387,40 @@ func drawOptions07(t *rapid.T) ojg.Options {
 var parseSubjects = []string{"oj.Parser", "oj.Validator", "oj.Tokenizer", "gen.Parser", "sen.Parser", "sen.Tokenizer", "pkg.oj", "pkg.sen", "pkg.oj", "pkg.sen"}
 var writeSubjects = []string{"oj.Writer", "sen.Writer", "pkg.oj", "pkg.sen", "pkg.oj", "pkg.sen", "pretty.Writer", "pkg.pretty"}
 
-func drawOp07(t *rapid.T, faults bool) *op07 {
+// theme07 is the swarm configuration of one history: the few subjects its operations concentrate on (a defect that
+// needs three particular calls in a row on one subject is out of reach when every call picks among ten).
+type theme07 struct {
+	parse, write []string
+	kind         int // 0 mixed, 1 parse only, 2 write only
+}
+
+func drawTheme07(t *rapid.T) *theme07 {
+	th := &theme07{parse: parseSubjects, write: writeSubjects}
+	if sim.Intn(t, 4, "uniform") == 3 {
+		return th
+	}
+	th.parse, th.write = nil, nil
+	for i, n := 0, 1+sim.Intn(t, 2, "nparse"); i < n; i++ {
+		th.parse = append(th.parse, parseSubjects[sim.Intn(t, len(parseSubjects), "themeparse")])
+	}
+	for i, n := 0, 1+sim.Intn(t, 2, "nwrite"); i < n; i++ {
+		th.write = append(th.write, writeSubjects[sim.Intn(t, len(writeSubjects), "themewrite")])
+	}
+	th.kind = sim.Intn(t, 3, "themekind")
+	return th
+}
+
+func drawOp07(t *rapid.T, faults bool, th *theme07) *op07 {
 	o := &op07{Conv: -1, PanicAt: -1, FailCall: -1}
-	if sim.Intn(t, 5, "write?") >= 3 {
-		o.Subj = writeSubjects[sim.Intn(t, len(writeSubjects), "wsubj")]
+	write := sim.Intn(t, 5, "write?") >= 3
+	switch th.kind {
+	case 1:
+		write = false
+	case 2:
+		write = true
+	}
+	if write {
+		o.Subj = th.write[sim.Intn(t, len(th.write), "wsubj")]
 		o.Value, o.ValDesc = drawValue07(t)
 		o.Opt = drawOptions07(t)
 		o.Limit = []int{1, 4, 16, 64, 1024}[sim.Intn(t, 5, "limit")]
@@ -427,7 +460,7 @@ func drawOp07(t *rapid.T, faults bool) *op07 {
 		}
 		return o
 	}
-	o.Subj = parseSubjects[sim.Intn(t, len(parseSubjects), "psubj")]
+	o.Subj = th.parse[sim.Intn(t, len(th.parse), "psubj")]
 	o.IsParse = true
 	senFam := strings.Contains(o.Subj, "sen")
 	o.Input = drawParseInput(t, senFam)
@@ -805,6 +838,7 @@ func (o *op07) exec(w *world07) (r *res07) {
 		case "MustJSON":
 			out := w.ojW.MustJSON(o.Value)
 			finishText(append([]byte(nil), out...), nil, nil) // documented as the writer's buffer: snapshot by copy
+			r.Buffer = out
 		case "Marshal(v,wr)":
 			out, err := oj.Marshal(o.Value, w.ojW)
 			finishText(out, err, nil)
@@ -838,6 +872,7 @@ func (o *op07) exec(w *world07) (r *res07) {
 		case "Encode":
 			out := w.prW.Encode(o.Value)
 			finishText(append([]byte(nil), out...), nil, nil) // documented as the writer's buffer: snapshot by copy
+			r.Buffer = out
 		case "Marshal":
 			out, err := w.prW.Marshal(o.Value)
 			finishText(append([]byte(nil), out...), err, nil)
@@ -993,6 +1028,8 @@ func snapshot(vals []any) string {
 		switch tv := v.(type) {
 		case []byte:
 			b.WriteString(string(tv))
+		case exprText:
+			b.WriteString(tv.String())
 		default:
 			b.WriteString(ref.Exact(v))
 		}
@@ -1006,7 +1043,8 @@ func propC07(cx *sim.Ctx) {
 	t := cx.T
 	c := &case07{RestartAt: -1}
 	c.Faults = sim.Intn(t, 3, "faultconfig") > 0
-	ops := rapid.SliceOfN(rapid.Custom(func(t *rapid.T) *op07 { return drawOp07(t, c.Faults) }), 2, 10).Draw(t, "ops")
+	th := drawTheme07(t)
+	ops := rapid.SliceOfN(rapid.Custom(func(t *rapid.T) *op07 { return drawOp07(t, c.Faults, th) }), 2, 10).Draw(t, "ops")
 	// drop order-dependent writes (result depends on Go's map order, which the simulator does not own)
 	for _, o := range ops {
 		if o.orderIndependent() {
@@ -1065,9 +1103,10 @@ func propC07(cx *sim.Ctx) {
 	defer vsync.SetSeqDecider(nil)
 	w := newWorld07()
 	type kept struct {
-		op   int
-		vals []any
-		snap string
+		op    int
+		vals  []any
+		snap  string
+		until string // subject whose next call ends the validity of vals ("" = for ever)
 	}
 	var retained []kept
 	type keptWriter struct {
@@ -1119,6 +1158,15 @@ func propC07(cx *sim.Ctx) {
 		if strings.HasPrefix(r.Canon, "error") {
 			prevAbortOrDiff[o.Subj] = true
 		}
+		// a buffer-returning API's result is only valid until the next call on the same subject: an unrelated
+		// call in between must not touch it
+		live := retained[:0]
+		for _, k := range retained {
+			if k.until == "" || k.until != o.Subj {
+				live = append(live, k)
+			}
+		}
+		retained = live
 		// stability of everything returned earlier (Reuse results of the same subject excepted)
 		for _, k := range retained {
 			if s := snapshot(k.vals); s != k.snap {
@@ -1137,6 +1185,10 @@ func propC07(cx *sim.Ctx) {
 		}
 		if !r.Volatile && !r.Aborted && len(r.Retained) > 0 {
 			retained = append(retained, kept{op: i, vals: r.Retained, snap: snapshot(r.Retained)})
+		}
+		if !r.Aborted && r.Buffer != nil {
+			v := []any{r.Buffer}
+			retained = append(retained, kept{op: i, vals: v, snap: snapshot(v), until: o.Subj})
 		}
 	}
 	if nontrivial {
